@@ -193,6 +193,10 @@ func (c *Case) chainTargets(j int) map[int]bool {
 				out[t.RedirectTo] = true // second hop
 			}
 		}
+		// state-changing requests are NoMirrors: their redirect target only counts for the registry itself
+		if p == j && c.valid(h.WriteRedir-1) && h.WriteRedir > 0 {
+			out[h.WriteRedir-1] = true
+		}
 		// an upload Location host only counts for the registry that named it: upload session requests
 		// are NoMirrors, they never run in the context of another member of the mirror group
 		if p == j && c.valid(h.Upload) {
@@ -874,6 +878,9 @@ func caseClasses(c *Case, res *runResult, st *stats) []string {
 		}
 		if h.Kind == "storage" && c.valid(h.RedirectTo) {
 			add("redirect:two-hops")
+		}
+		if h.Kind == "registry" && h.WriteRedir > 0 && c.valid(h.WriteRedir-1) {
+			add(fmt.Sprintf("write-redirect:%d", h.WriteRedirSt))
 		}
 		if h.Kind == "registry" && c.valid(h.RedirectTo) && h.RedirectTo != i && sameSite(h.Name, c.Hosts[h.RedirectTo].Name) {
 			add("redirect:target-in-same-site-as-registry")
